@@ -316,3 +316,11 @@ RULES = [
     ("C20.c", "UniqueKey orders by (key, epoch)", rule_c),
     ("C20.d", "extract only on matching epoch; InsertKey carries it", rule_d),
 ]
+
+
+def rule_inventory(ctx):
+    from . import inventory
+    inventory.check(ctx, ['file:priority_queue', 'file:indexed_priority_queue', 'keyed-queue-ops'])
+
+
+RULES.append(("C20.f", "state-mutation inventory: no new site that changes the content of the state this property rests on", rule_inventory))
